@@ -298,7 +298,12 @@ func (fr *frame) instr(b *ssa.BasicBlock, in ssa.Instruction, reach Term, h Heap
 			fr.bind(in, Val{ts: []Term{xv.ts[0]}})
 		} else {
 			x.note("slice-to-array-pointer with non-zero offset")
-			fr.bind(in, Val{ts: []Term{x.freshConst("s2a", "Int")}})
+			p := x.freshConst("s2a", "Int")
+			// the array pointer is nil only for a nil slice; a slice long enough for a non-empty array is not nil
+			if at.Len() > 0 {
+				x.sc.assert(implies(reach, app(">", p, "0")))
+			}
+			fr.bind(in, Val{ts: []Term{p}})
 		}
 		return h
 	default:
